@@ -728,6 +728,18 @@ def check(pid, tier):
     discharged = obligations - len([x for x in proofs["failed"] if x.split(" ")[0] in proofs["obligations"]])
     if any(x.split(" ")[0] not in proofs["obligations"] for x in proofs["failed"]):
         discharged = min(discharged, max(0, obligations - 1))
+    # the translated fragments, exercised: samples per fragment on which the regenerated term and the expected observation agree
+    trans_cov = {}
+    try:
+        if os.path.exists(DRIVER) and any(".translated_" in t for t in proofs["obligations"]):
+            pr = subprocess.run([DRIVER, "transcheck", str(seed), "20000" if thorough else "2000"], stdout=subprocess.PIPE,
+                                stderr=subprocess.STDOUT, text=True, timeout=300)
+            for l in pr.stdout.split("\n"):
+                f = l.split("\t")
+                if len(f) >= 3:
+                    trans_cov[f[0]] = (f[1] + " " + f[2])[:300]
+    except Exception as e:
+        trans_cov = dict(error=repr(e))
     ev = dict(
         property_id=pid, tier=tier, seed=seed, level="proof",
         coverage=dict(
@@ -743,6 +755,8 @@ def check(pid, tier):
             status_histogram=stats["status"], branch_tags=dict(sorted(stats["tags"].items())),
             samples=stats["samples"] or [dict(note="no correspondence cases ran")],
             extras={k: {kk: vv for kk, vv in r.items() if kk not in ("failing",)} for k, r in comp_results.items()},
+            translated_obligations=[t for t in proofs["obligations"] if ".translated_" in t],
+            translated_fragments_sampled=trans_cov,
             known_findings_seen=sorted(known_printed.keys()),
             not_yet_proved=prop.get("not_yet_proved", []), leanchecker=proofs.get("leanchecker"), notes=notes),
         assumptions=prop.get("assumptions", []),
